@@ -109,6 +109,13 @@ theorem wf_sizeKws (D : Defs) (ctx : List (PyVal × PyVal)) (sz : SizeOpts) :
   · cases sz.max <;> simp [Option.map, optKw, wfKws, kw, wfNode, kwOf, kwOfStr, wfLeaf, isNatJ_natJ]
   · cases sz.min <;> simp [Option.map, optKw, wfKws, kw, wfNode, kwOf, kwOfStr, wfLeaf, isNatJ_natJ]
 
+theorem wf_sizeKws_obj (D : Defs) (ctx : List (PyVal × PyVal)) (sz : SizeOpts) :
+    wfKws D ctx (optKw "maxProperties" (sz.max.map natJ)) = true
+    ∧ wfKws D ctx (optKw "minProperties" (sz.min.map natJ)) = true := by
+  constructor
+  · cases sz.max <;> simp [Option.map, optKw, wfKws, kw, wfNode, kwOf, kwOfStr, wfLeaf, isNatJ_natJ]
+  · cases sz.min <;> simp [Option.map, optKw, wfKws, kw, wfNode, kwOf, kwOfStr, wfLeaf, isNatJ_natJ]
+
 theorem wf_uniqKw (D : Defs) (ctx : List (PyVal × PyVal)) (u : Bool) :
     wfKws D ctx (optKw "uniqueItems" (if u then some (.bool true) else none)) = true := by
   cases u <;> simp [optKw, wfKws, kw, wfNode, kwOf, kwOfStr, wfLeaf, isBoolJ]
@@ -165,7 +172,7 @@ theorem wf_mapKws (D : Defs) (key : Option FieldDecl) (vs : Option PyVal) (sz : 
   suffices hh : ∀ ctx, wfKws D ctx (mapKws key vs sz) = true from hh _
   intro ctx
   simp only [mapKws, wfKws_append, and_true_iff']
-  have h2 := wf_sizeKws D ctx sz
+  have h2 := wf_sizeKws_obj D ctx sz
   refine ⟨⟨⟨wf_typeKw D ctx "object" (Or.inr (Or.inl rfl)), ?_⟩, h2.1⟩, h2.2⟩
   cases key with
   | none => rfl
@@ -190,21 +197,6 @@ theorem wf_listKw (D : Defs) (k : String) (hk : k = "anyOf" ∨ k = "oneOf" ∨ 
     simp [wfDraft4, wfKws, kw, wfNode, kwOf, kwOfStr, wfListV, hs, hne]
 
 /-! ### `default` -/
-
-theorem c08_getKw_setKw_ne (k k' : String) (v : PyVal) (hne : (k' == k) = false) :
-    ∀ kvs : List (PyVal × PyVal), getKw k (setKw k' v kvs) = getKw k kvs
-  | [] => by simp [setKw, getKw, kw, keyIs, hne]
-  | (a, w) :: rest => by
-    simp only [setKw]
-    split
-    · rename_i h
-      -- the replaced entry's key is `k'`, not `k`
-      have ha : keyIs k a = false := by
-        cases a <;> simp [keyIs] at h ⊢
-        subst h
-        simpa using hne
-      simp [getKw, ha]
-    · simp only [getKw, c08_getKw_setKw_ne k k' v hne rest]
 
 /-- `wfNode` looks at the enclosing object only through `maximum` / `minimum` -/
 theorem c08_wfNode_ctx (D : Defs) (ctx ctx' : List (PyVal × PyVal)) (k v : PyVal) (one lst props : Unit → Bool)
